@@ -406,11 +406,15 @@ def run(chk):
                           f"correspondence E3:handler history differs at op #{first}\n" + desc, failing_input=False)
         if i == 5:
             chk.coverage["samples"].append(json.loads(desc))
+    # ---- session life cycles against the real node-server table, legacy zero / repeated nonces (lib/c18_net.py)
+    n_life = c18_net.lifecycle_stage(chk, build, distinct, quick, factor)
+    if n_life is None:
+        return infrastructure_failure(chk.prop, "handler engine (eng_elect) did not complete the life-cycle histories")
     # ---- two real NodeServers with several connections to each other (lib/c18_net.py)
     n_net = c18_net.stage(chk, build, quick, factor, distinct)
     if n_net is None:
         return infrastructure_failure(chk.prop, "two-node election engine (eng_elect_net) did not complete")
-    chk.coverage["traces_validated_against_impl"] = nm + nr + nt + len(hcs) + n_net
+    chk.coverage["traces_validated_against_impl"] = nm + nr + nt + len(hcs) + n_life + n_net
     chk.coverage["distinct_nontrivial"] = len(distinct)
     chk.coverage["rule"] = ("mirror: all connection multisets of size <=3 over nonces {0,1,2}, both name orders, two id "
                             "layouts (exhaustive) + seeded random sets up to 8 connections; raw: random candidate lists; "
